@@ -1,7 +1,21 @@
 (* C14 -- displaying any Span or Position never panics and marks the right text.
-   Statements only; every proof is `exact` of a lemma proved in Proofs/FormatProofs.v. *)
+   Statements only; every proof is `exact` of a lemma proved in Proofs/FormatProofs.v (FormatLinesProofs.v).
+
+   Model/Format.v is the formatter of main/src/formatter.rs path by path (flags fixA / fixC = the repaired
+   code of proposed_fixes/C14-F4a.diff / C14-F4c.diff; false = the code as found); Model/FormatSpec.v says
+   what has to be shown.  `w` is the display width of a character (unicode-width), arbitrary.
+   A string is `encode cs`; a valid span / position is one `Span::new` / `Position::new` accepts. *)
 From Coq Require Import List NArith.
-From PT Require Import Model.Base Model.Format Model.FormatSpec Proofs.FormatProofs.
+From PT Require Import Model.Base Model.Format Model.FormatSpec Proofs.FormatLinesProofs Proofs.FormatProofs.
+
+(* ---- never panics ---------------------------------------------------------------------------- *)
+
+(* code as found: no panic (and no fuel exhaustion) for every valid span of every NON-EMPTY input *)
+Theorem C14_total_partial : forall (w : char -> nat) cs a b,
+  valid_str cs -> encode cs <> nil -> fmt_valid_span (encode cs) a b = true ->
+  exists ps, display_span w false (encode cs) a b = ROk ps.
+Proof. exact total_span_as_found. Qed.
+Print Assumptions C14_total_partial.
 
 (* F4a: the code as found panics on a Span of the empty input *)
 Theorem C14_refuted_empty :
@@ -9,6 +23,40 @@ Theorem C14_refuted_empty :
     fmt_valid_span s a b = true /\ display_span w false s a b = RPanic.
 Proof. exact display_span_empty_panics. Qed.
 Print Assumptions C14_refuted_empty.
+
+(* with the repair F4a: every valid span of every input *)
+Theorem C14_total_repaired : forall (w : char -> nat) cs a b,
+  valid_str cs -> fmt_valid_span (encode cs) a b = true ->
+  exists ps, display_span w true (encode cs) a b = ROk ps.
+Proof. exact total_span_repaired. Qed.
+Print Assumptions C14_total_repaired.
+
+(* positions: as found and repaired, every input, every valid offset including end of input *)
+Theorem C14_total_position : forall (w : char -> nat) fixC cs p,
+  valid_str cs -> fmt_valid_pos (encode cs) p = true ->
+  exists ps, display_position w fixC (encode cs) p = ROk ps.
+Proof. exact total_position. Qed.
+Print Assumptions C14_total_position.
+
+(* ---- shows and marks the right text ---------------------------------------------------------- *)
+
+(* what the code prints for EVERY valid span (as found and repaired): the specified rendering, with the
+   rows running from the line holding the byte before `start` to the line holding the byte before `end` *)
+Theorem C14_rows_of_the_code : forall (w : char -> nat) fixA cs a b,
+  valid_str cs -> encode cs <> nil -> fmt_valid_span (encode cs) a b = true ->
+  display_span w fixA (encode cs) a b
+  = ROk (spec_span_at w (encode cs) a b (impl_line (encode cs) a) (impl_line (encode cs) b)).
+Proof. exact span_lines_of_the_code. Qed.
+Print Assumptions C14_rows_of_the_code.
+
+(* rows, 1-based numbers, visualized texts, span parts and marker columns are the demanded ones for every
+   valid span that does not start exactly at the start of a line other than the first *)
+Theorem C14_rows_partial : forall (w : char -> nat) fixA cs a b,
+  valid_str cs -> encode cs <> nil -> fmt_valid_span (encode cs) a b = true ->
+  starts_at_line_start (encode cs) a = false ->
+  display_span w fixA (encode cs) a b = ROk (spec_span w (encode cs) a b).
+Proof. exact rows_span_partial. Qed.
+Print Assumptions C14_rows_partial.
 
 (* F4b: a span starting exactly at a line start (not the first line) is rendered from the line before *)
 Theorem C14_refuted_linestart :
@@ -18,10 +66,50 @@ Theorem C14_refuted_linestart :
 Proof. exact display_span_linestart_deviates. Qed.
 Print Assumptions C14_refuted_linestart.
 
-(* F4c: the code as found renders nothing for a Position at end of input *)
+(* ... and so is every member of that class: the first row is the line before the demanded one *)
+Theorem C14_linestart_off_by_one : forall cs a,
+  valid_str cs -> a <= length (encode cs) -> starts_at_line_start (encode cs) a = true ->
+  cursor_line (encode cs) a = S (impl_line (encode cs) a).
+Proof. exact linestart_off_by_one. Qed.
+Print Assumptions C14_linestart_off_by_one.
+
+(* positions: the demanded row and marker column for every offset inside the input (code as found), and
+   also at end of input with the repair F4c *)
+Theorem C14_rows_position_partial : forall (w : char -> nat) fixC cs p,
+  valid_str cs -> fmt_valid_pos (encode cs) p = true ->
+  p < length (encode cs) \/ fixC = true ->
+  display_position w fixC (encode cs) p = ROk (spec_pos w (encode cs) p).
+Proof. exact rows_position_partial. Qed.
+Print Assumptions C14_rows_position_partial.
+
+(* F4c: the code as found prints nothing for a Position at end of input ... *)
+Theorem C14_position_eof_as_found : forall (w : char -> nat) cs,
+  valid_str cs -> display_position w false (encode cs) (length (encode cs)) = ROk nil.
+Proof. exact position_eof_as_found. Qed.
+Print Assumptions C14_position_eof_as_found.
+
+(* ... although the statement asks for the last line *)
 Theorem C14_refuted_pos_eof :
   exists (w : char -> nat) (s : list byte) (p : nat),
     fmt_valid_pos s p = true /\ p = length s /\
     display_position w false s p = ROk nil /\ spec_pos w s p <> nil.
 Proof. exact display_position_eof_deviates. Qed.
 Print Assumptions C14_refuted_pos_eof.
+
+(* ---- ingredients ----------------------------------------------------------------------------- *)
+
+(* the line iterator of the code yields exactly the pieces cut after every LF, for every UTF-8 string *)
+Theorem C14_lines : forall cs, valid_str cs -> lines_full (encode cs) = ROk (split_incl (encode cs)).
+Proof. exact lines_full_encode. Qed.
+Print Assumptions C14_lines.
+
+(* the 33-entry match is: U+0000..U+001F -> U+2400+c, U+007F -> U+2421, everything else (U+0020 too) unchanged *)
+Theorem C14_pictures : forall c, pic c = pic_spec c.
+Proof. exact pic_is_pic_spec. Qed.
+Print Assumptions C14_pictures.
+
+(* the number printed for n is its decimal representation, as wide as ceil_log10 says *)
+Theorem C14_numbers : forall n,
+  exists t, digits n = ROk t /\ digits_value t = n /\ (forall d, ceil_log10 n = ROk d -> length t = d).
+Proof. exact digits_ok. Qed.
+Print Assumptions C14_numbers.
